@@ -45,7 +45,9 @@ def strategy(tier):
                   st.sampled_from([None, {'h': 'oneof', 'ints': [1, 2, 3]}, {'h': 'oneof', 'ints': [4, 5]}]),
                   st.sampled_from([None, {'h': 'manyof', 'k': 2, 'ints': [1, 2, 3], 'distinct': True, 'sorted': False},
                                    {'h': 'manyof', 'k': 2, 'ints': [1, 2, 3], 'distinct': False, 'sorted': True}]),
-                  st.sampled_from([None, {'h': 'float'}, {'h': 'float'}, {'h': 'float', 'lo': -1.0, 'hi': 1.0}, {'h': 'float', 'lo': 50.0, 'hi': 150.0}]), c),
+                  st.sampled_from([None, {'h': 'float'}, {'h': 'float'}, {'h': 'float', 'lo': -1.0, 'hi': 1.0}, {'h': 'float', 'lo': 50.0, 'hi': 150.0},
+                                   # int literals on a float field: the field's spec converts the decoded value
+                                   {'h': 'oneof', 'ints': [1, 2, 3]}, {'h': 'manyof', 'k': 1, 'ints': [4, 5], 'distinct': True, 'sorted': False}][:6]), c),
     )
   tmpl = st.recursive(const, ext, max_leaves=7)
   return st.fixed_dictionaries({
